@@ -328,15 +328,78 @@ def number_type_only(a, b):
 _CACHE = {}
 
 
+class _R:
+    """what Check.add_model needs of a TLC result, restorable from the disk cache"""
+    def __init__(self, d):
+        self.__dict__.update(d)
+
+
+def _r_dict(r):
+    return {"distinct": r.distinct, "generated": r.generated, "depth": r.depth, "wall": r.wall, "coverage": getattr(r, "coverage", None), "ok": True,
+            "violation": None, "error": None}
+
+
+def _state_key(tier, seed, hang):
+    """identifies everything the pipeline's result depends on: the Go sources of /repo's working tree, the machinery
+    under /verif that produces it, tier and seed"""
+    import hashlib
+    h = hashlib.sha256()
+    h.update(repr((tier, seed, hang)).encode())
+    for root in (os.path.join(vf.REPO, "pkg"), os.path.join(vf.REPO, "cmd")):
+        for dp, dn, fn in sorted(os.walk(root)):
+            dn.sort()
+            for f in sorted(fn):
+                if f.endswith(".go"):
+                    fp = os.path.join(dp, f)
+                    h.update(fp.encode())
+                    h.update(open(fp, "rb").read())
+    for f in ("go.mod", "go.sum"):
+        fp = os.path.join(vf.REPO, f)
+        if os.path.exists(fp):
+            h.update(open(fp, "rb").read())
+    for rel in ("specs/lang/GlyphCore.tla", "tools/langgen.py", "tools/vf.py", "checks/langrun.py", "inject/cmd/glyph/lang_test.go", "inject/cmd/glyph/harness_test.go"):
+        h.update(open(os.path.join(vf.ROOT, rel), "rb").read())
+    return h.hexdigest()[:32]
+
+
 def pipeline(tier, seed, hang=False):
-    """programs, design outcomes, VM-as-is outcomes, observations (cached per process)"""
+    """programs, design outcomes, VM-as-is outcomes, observations.  The four language checks (C01-C04) evaluate the same
+    corpus on the same engines; the result is kept per process and, keyed by the exact state of /repo's sources and of
+    this machinery, for a few hours on disk (under /verif/.scratch, never needed: a miss recomputes)"""
+    import gzip, time
     key = (tier, seed, hang)
-    if key not in _CACHE:
-        progs = langgen.all_programs(tier, seed)
-        cases, r1 = evaluate(progs)
-        casesA, r2 = evaluate(progs, dev=VM_KNOWN)
-        obs, hangobs = observe(progs, cases, hang=hang)
-        _CACHE[key] = (progs, cases, casesA, obs, hangobs, r1, r2)
+    if key in _CACHE:
+        return _CACHE[key]
+    cdir = os.path.join(vf.ROOT, ".scratch", "langcache")
+    os.makedirs(cdir, exist_ok=True)
+    use_disk = os.environ.get("VERIF_NO_CACHE") != "1"
+    for want_hang in ((hang, True) if not hang else (True,)):
+        path = os.path.join(cdir, _state_key(tier, seed, want_hang) + ".json.gz")
+        if use_disk and os.path.exists(path) and time.time() - os.path.getmtime(path) < 6 * 3600:
+            try:
+                d = json.load(gzip.open(path, "rt"))
+                conv = lambda m: {int(k): v for k, v in m.items()}
+                _CACHE[key] = (d["progs"], conv(d["cases"]), conv(d["casesA"]), conv(d["obs"]), d["hangobs"], _R(d["r1"]), _R(d["r2"]))
+                return _CACHE[key]
+            except Exception:
+                pass
+    progs = langgen.all_programs(tier, seed)
+    cases, r1 = evaluate(progs)
+    casesA, r2 = evaluate(progs, dev=VM_KNOWN)
+    obs, hangobs = observe(progs, cases, hang=hang)
+    _CACHE[key] = (progs, cases, casesA, obs, hangobs, r1, r2)
+    if use_disk:
+        path = os.path.join(cdir, _state_key(tier, seed, hang) + ".json.gz")
+        tmp = path + ".%d.tmp" % os.getpid()
+        try:
+            json.dump({"progs": progs, "cases": cases, "casesA": casesA, "obs": obs, "hangobs": hangobs, "r1": _r_dict(r1), "r2": _r_dict(r2)}, gzip.open(tmp, "wt"))
+            os.replace(tmp, path)
+            for f in os.listdir(cdir):       # keep the directory small
+                fp = os.path.join(cdir, f)
+                if time.time() - os.path.getmtime(fp) > 6 * 3600:
+                    os.remove(fp)
+        except Exception:
+            pass
     return _CACHE[key]
 
 
